@@ -295,7 +295,13 @@ def evaluate(ctx, cases, use_bash_n=0):
         if exp is not None:
             stats["spec_checked"] += 1
             if cr != exp:
-                v = {"input": desc, "why": "expected %s, code gave %s" % (repr(exp)[:300], repr(cr)[:300])}
+                why = "expected %s, code gave %s" % (repr(exp)[:300], repr(cr)[:300])
+                if exp[0] == "OK" and cr[0] == "OK" and len(exp[1]) == len(cr[1]) == 1 and len(exp[1][0]) > 200:
+                    a, b = exp[1][0], cr[1][0]
+                    k = next((i for i in range(min(len(a), len(b))) if a[i] != b[i]), min(len(a), len(b)))
+                    why = "first difference at character %d (byte %d): expected %r..., code gave %r... (lengths %d / %d)" % (
+                        k, len(a[:k].encode("utf-8")), a[k:k + 8], b[k:k + 8], len(a), len(b))
+                v = {"input": desc, "why": why}
                 if len(c.text) < 500 and not getattr(c, "nomodel", False):
                     v["impl_fields"] = c.impl_fields()
                 if getattr(c, "kf", None):
